@@ -23,7 +23,7 @@ CODES = [b"", b"c1", b"c2", b"\x60\x00"]
 BALS = [0, 1, 5, 7, 100, 2**70, -30]
 NONCES = [0, 1, 2, 3, 2**64 - 1]
 
-EXTRA_PROOFS = []      # proof targets added as they are completed (Proofs/...)
+EXTRA_PROOFS = ["Proofs/RootProofs", "Proofs/RefineMain", "Proofs/RefineProps"]
 R_NAMES = {"ok": 0, "higher": 1, "toomuch": 2, "nojournal": 3, "panic": 4, "err": 5, "badop": 5, "hang": 6}
 
 
